@@ -67,9 +67,10 @@ theorem digits_value (n x : Nat) (hx : x < 256 ^ n) :
 
 /-- `io::write` then `io::read` in the same byte order gives the value back, consumes exactly what was written and
 leaves the rest of the stream alone: every width, signedness, byte order, machine and value. -/
-theorem read_write_roundtrip (native : Endian) (t : IntTy) (v : Int) (e : Endian) (rest : List Byte)
+theorem read_write_roundtrip (native : Endian) (t : IntTy) (v : Int) (e : Endian)
     (ht : 0 < t.bytes) (hv : t.InRange v) :
-    ∃ out, write native t [] v e = .ok out ∧ out.length = t.bytes ∧ read native t (out ++ rest) e = .ok (some v, rest) := by
+    ∃ out, write native t [] v e = .ok out ∧ out.length = t.bytes ∧
+      ∀ rest, read native t (out ++ rest) e = .ok (some v, rest) := by
   obtain ⟨x, hx⟩ : ∃ x, convert native t v e = .ok x := by
     unfold convert; split
     · exact ⟨_, rfl⟩
@@ -81,11 +82,50 @@ theorem read_write_roundtrip (native : Endian) (t : IntTy) (v : Int) (e : Endian
     unfold convert at hx; split at hx
     · cases hx; exact hv
     · rw [swap_eq] at hx; cases hx; exact ofObjRep_inRange native t _ ht (by simp)
-  refine ⟨objRep native t x, by simp [write, hx, bind, Except.bind, pure, Except.pure], by simp, ?_⟩
+  refine ⟨objRep native t x, by simp [write, hx, bind, Except.bind, pure, Except.pure], by simp, fun rest => ?_⟩
   unfold read
   rw [if_neg (by simp)]
   simp only [List.take_left' (length_objRep native t x), List.drop_left' (length_objRep native t x),
     ofObjRep_objRep native t x ht hxr, hback, bind, Except.bind, pure, Except.pure]
+
+/-- Any number of values written to one stream come back in order, exactly `n · sizeof(Type)` bytes are used and one
+more read fails without a value. -/
+theorem read_write_many_roundtrip (native : Endian) (t : IntTy) (e : Endian) (vs : List Int)
+    (ht : 0 < t.bytes) (hv : ∀ v ∈ vs, t.InRange v) :
+    ∃ out, writeAll native t e vs [] = .ok out ∧ out.length = t.bytes * vs.length ∧
+      readN native t e (vs.length + 1) out = .ok (vs, []) := by
+  -- generalised over what the stream already holds (for writing) and how many more reads follow
+  have key : ∀ (vs : List Int), (∀ v ∈ vs, t.InRange v) → ∀ (pre : List Byte),
+      ∃ out, writeAll native t e vs pre = .ok (pre ++ out) ∧ out.length = t.bytes * vs.length ∧
+        ∀ n, readN native t e (vs.length + n) out = (readN native t e n []).map (fun p => (vs ++ p.1, p.2)) := by
+    intro vs
+    induction vs with
+    | nil =>
+      intro _ pre
+      refine ⟨[], by simp [writeAll, pure, Except.pure], by simp, fun n => ?_⟩
+      simp only [List.length_nil, Nat.zero_add, List.nil_append]
+      cases readN native t e n [] <;> rfl
+    | cons v vs ih =>
+      intro hv pre
+      obtain ⟨o1, hw1, hl1, hr1⟩ := read_write_roundtrip native t v e ht (hv v (by simp))
+      have hwpre : write native t pre v e = .ok (pre ++ o1) := by
+        unfold write at hw1 ⊢
+        cases hc : convert native t v e with
+        | error f => simp [hc, bind, Except.bind] at hw1
+        | ok x => simp [hc, bind, Except.bind, pure, Except.pure] at hw1 ⊢; rw [← hw1]
+      obtain ⟨o2, hw2, hl2, hr2⟩ := ih (fun x hx => hv x (by simp [hx])) (pre ++ o1)
+      refine ⟨o1 ++ o2, ?_, ?_, fun n => ?_⟩
+      · simp only [writeAll, List.foldlM_cons, hwpre, bind, Except.bind] at hw2 ⊢
+        rw [hw2, List.append_assoc]
+      · simp only [List.length_append, List.length_cons, hl1, hl2, Nat.mul_add, Nat.mul_one]; omega
+      · rw [show (v :: vs).length + n = (vs.length + n) + 1 by simp only [List.length_cons]; omega]
+        simp only [readN, hr1 o2, bind, Except.bind, hr2 n]
+        cases readN native t e n [] <;> simp [Except.map, pure, Except.pure]
+  obtain ⟨out, hw, hl, hr⟩ := key vs hv []
+  refine ⟨out, by simpa using hw, hl, ?_⟩
+  rw [hr 1]
+  have hshort : read native t [] e = .ok (none, []) := by simp [read, ht, pure, Except.pure]
+  simp [readN, hshort, pure, Except.pure, bind, Except.bind, Except.map]
 
 /-- A stream that holds fewer than `sizeof(Type)` bytes never yields a value (no value from a partial read). -/
 theorem read_short_input_fails (native : Endian) (t : IntTy) (s : List Byte) (e : Endian) (h : s.length < t.bytes) :
